@@ -1026,6 +1026,9 @@ def family_cases(thorough: bool = False) -> list[tuple]:
                 cases.append(("simfirst", tuple(indices), tuple(order), gap))
     for carrier in range(len(NEST_INDICES)):
         cases.append(("nested", carrier))
+    for which_id in range(len(FC_IDS)):
+        for sender in range(len(FC_SENDERS)):
+            cases.append(("forged-created", which_id, sender))
     for shape in range(len(REUSE_SHAPES)):
         for hold in ("create", "created"):
             # (seconds between destroy and re-use, seconds the old owner's extend was delayed): with a prompt extend
@@ -1039,7 +1042,7 @@ def family_cases(thorough: bool = False) -> list[tuple]:
 def run_family_case(seed: int, case: tuple) -> tuple[list[tuple], str, bytes, int]:
     """One execution from scratch. Returns ([(key, what)], status, abstract digest, injections)."""
     fn = {"halfbuilt": _run_halfbuilt, "closing": _run_closing, "simfirst": _run_simfirst, "nested": _run_nested,
-          "reuse": _run_reuse, "hidden": _run_hidden}[case[0]]
+          "reuse": _run_reuse, "hidden": _run_hidden, "forged-created": _run_forged_created}[case[0]]
     return fn(seed, *case[1:])
 
 
@@ -1300,6 +1303,67 @@ def _run_reuse(seed: int, shape: int, hold: str, t_reuse: float,
             viol += _labelled([(f"table-added:{e[1]}", f"{e[0]}.{e[1]}[{e[2]}] exists although the request was "
                                                        f"refused: {where}") for e in view], label)
         return viol, "accepted" if accepted else "refused", world.digest(), world.injections
+    finally:
+        world.close()
+
+
+# -- family "forged created": a third party answers a relay's pending create --------------------------------------------
+
+FC_IDS = ["unknown", "bystander", "own-from"]      # the circuit id the forged CREATED names
+FC_SENDERS = ["ADV", "spoof-next"]                 # from the adversary's address / spoofed from the node that was asked
+
+
+def _run_forged_created(seed: int, which_id: int, sender: int) -> tuple[list[tuple], str, bytes, int]:
+    """
+    O1 -1-> X1 is extended to X2 (X1's create for X2 is held back, so X1 waits for a CREATED); K = O2 -5-> X1 is a
+    bystander.  A third party sends X1 a plaintext CREATED that carries the identifier X1 is waiting for (the adversary
+    cannot read it off the wire - it is a 16-bit number and can be hit by trying) but names a circuit id X1 never put in
+    its create: an unknown id, the bystander's id, or the id of the asking circuit itself.  "Cells naming an unknown
+    circuit id ... change nothing about existing circuits": X1's tables stay as they are, and when the held create is
+    released the build completes with X2.
+    """
+    world = World5(1, seed, custom=[("O2", ("X1",), (5,))])
+    try:
+        w = world.w
+        old = CircuitPlan(99, "O1", ["X1", "X2"], [1, 2])
+        c = world._start(old)
+        w.loop.settle()
+        held = None
+        for _ in range(20):
+            if not w.inflight:
+                break
+            dg = w.inflight[0]
+            if (w.kind(dg), world._name(dg.src), world._name(dg.dst)) == ("cell:create", "X1", "X2"):
+                held = w.inflight.pop(0)
+                break
+            w.deliver(0)
+        if held is None or w.inflight:
+            raise HarnessError("forged-created: could not hold back X1's create for X2")
+        from ipv8.messaging.anonymization.caches import CreateRequestCache
+        x1 = w.ov["X1"]
+        pending = [cache for cache in x1.request_cache._identifiers.values() if isinstance(cache, CreateRequestCache)]  # noqa: SLF001
+        if len(pending) != 1:
+            raise HarnessError(f"forged-created: X1 has {len(pending)} pending creates")
+        ident = pending[0].number
+        cid = {"unknown": UNKNOWN_ID, "bystander": 5, "own-from": 1}[FC_IDS[which_id]]
+        before = world.table_view()
+        forged = world._msg(CreatedPayload(cid, ident, world._garbage(32, "fk"), world._garbage(32, "fa"), b""))
+        src = "ADV" if FC_SENDERS[sender] == "ADV" else "X2"
+        w.inject(world.addr[src], world.addr["X1"], world._cell(cid, forged, True))
+        w.flush()
+        world.injections += 1
+        label = f"FC/{FC_IDS[which_id]}/{FC_SENDERS[sender]}"
+        where = (f"O1 -1-> X1 asked X1 to extend to X2, X1's create (id 2) is still under way; a plaintext CREATED with "
+                 f"X1's pending identifier but naming circuit id {cid} ({FC_IDS[which_id]}) arrives from {src}'s address")
+        viol = _labelled([(o, f"{d}: {where}") for o, d in world.table_diff(before, world.table_view())], label)
+        w.inflight.append(held)
+        w.flush()
+        if not viol:
+            names = [world._who_bin(h.public_key_bin) for h in c.hops]
+            if c.state != CIRCUIT_STATE_READY or names != ["X1", "X2"]:
+                viol += _labelled([("build-derailed", f"after the forged CREATED the genuine exchange was released, but the "
+                                                      f"circuit is {c.state} with hops {names}: {where}")], label)
+        return viol, "ran", world.digest(), world.injections
     finally:
         world.close()
 
